@@ -72,6 +72,10 @@ func checkC07(cx *Ctx, r *Report) {
 					if a.Op == "TRUE" && !a.Neg && strings.Contains(a.A, "#1") {
 						fromQuery = true
 					}
+					// the binding computed by a helper from the same lookup
+					if a.Op == "EQ" && !a.Neg && (a.A == cRedirect || a.B == cRedirect) {
+						fromQuery = true
+					}
 					if a.Op == "EQ" && !a.Neg && (a.A == cRedirect || a.B == cRedirect) {
 						fromQuery = true
 					}
@@ -87,11 +91,13 @@ func checkC07(cx *Ctx, r *Report) {
 		}
 		// the query lookup is for SAMLRequest
 		hasLookup := false
-		for _, b := range fn.Blocks {
-			for _, in := range b.Instrs {
-				if lk, ok := in.(*ssa.Lookup); ok {
-					if k, ok := constString(lk.Index); ok && k == "SAMLRequest" {
-						hasLookup = true
+		for g := range w.scopeOf(fn) {
+			for _, b := range g.Blocks {
+				for _, in := range b.Instrs {
+					if lk, ok := in.(*ssa.Lookup); ok {
+						if k, ok := constString(lk.Index); ok && k == "SAMLRequest" {
+							hasLookup = true
+						}
 					}
 				}
 			}
